@@ -27,6 +27,8 @@ fn library() -> Vec<(&'static str, Program)> {
         ("iterate-shuffle", vec![Shuffle, Iterate(2, vec![Shuffle, Filter])]),
         ("nested-replay", vec![Shuffle, Replay(2, vec![Shuffle, Replay(2, vec![Map])])]),
         ("repl-one", vec![ReplOne, Map, Shuffle]),
+        ("iterate-expand", vec![Shuffle, Iterate(2, vec![FlatMap])]),
+        ("replay-expand", vec![Shuffle, Replay(2, vec![FlatMap, Shuffle, FlatMap])]),
         ("bcast", vec![BcastMax]),
     ]
 }
@@ -51,6 +53,26 @@ fn build(tier: Tier) -> Vec<Scenario> {
             JobCfg { layout: Layout::Local(3), batch: BatchMode::fixed(1), capacity: 2 },
         ],
     };
+    // a loop body that expands its input: the feedback edge fills up unless the loop head keeps
+    // draining it (capacity 2, one element per batch, more elements than the edge can hold)
+    let expand_cfgs = [
+        JobCfg { layout: Layout::Local(1), batch: BatchMode::single(), capacity: 2 },
+        JobCfg { layout: Layout::Local(2), batch: BatchMode::single(), capacity: 2 },
+    ];
+    for (name, prog) in lib.iter().filter(|(n, _)| n.ends_with("-expand")) {
+        for cfg in &expand_cfgs {
+            out.push(program_scenario(
+                &format!("C04/{name}"),
+                prog,
+                &[2, 4, 6, 8, 10, 12],
+                SrcKind::Iter,
+                cfg,
+                if tier == Tier::Quick { 0 } else { 1 },
+                &ORDERS3,
+                format!("{name}:"),
+            ));
+        }
+    }
     for (name, prog) in &lib {
         assert!(
             crate::program::well_formed(prog, crate::program::Rep::One).is_some(),
@@ -66,7 +88,13 @@ fn build(tier: Tier) -> Vec<Scenario> {
                     cfg,
                     bound,
                     &ORDERS3,
-                    format!("{name}:"),
+                    // an element that expands into more batches than the feedback edge can hold
+                    // is a different situation from a loop that stops draining the edge
+                    if name.ends_with("-expand") && cfg.capacity == 1 {
+                        format!("{name}-over-capacity:")
+                    } else {
+                        format!("{name}:")
+                    },
                 );
                 // the oracle of C04 is termination and single publication, not the content: keep
                 // the content check (it is free) but it shares C01's known findings
